@@ -487,10 +487,16 @@ def align_variable_names_with_convention(
         | constants.BUILTIN_FUNCTIONS
         | constants.PYTHON_KEYWORDS
     )
+    # Global and nonlocal statements hold names as plain strings, which are not renamed.
+    declared_names = {
+        name for node in core.walk(ast_tree, (ast.Global, ast.Nonlocal)) for name in node.names
+    }
     renamings = {
         node: list(substitutes)[0]
         for node, substitutes in renamings.items()
-        if len(substitutes) == 1 and blacklisted_names.isdisjoint(substitutes)
+        if len(substitutes) == 1
+        and blacklisted_names.isdisjoint(substitutes)
+        and getattr(node, "id", getattr(node, "name", None)) not in declared_names
     }
     substitute_node_renamings = collections.defaultdict(set)
     for node, substitute in renamings.items():
